@@ -62,6 +62,10 @@ type CMap struct {
 	NoBegincmap bool
 	// NoCMapName omits /CMapName (the reader then uses the resource key).
 	NoCMapName bool
+	// Key, if not empty, is the resource key given to defineresource instead
+	// of the value of /CMapName (a copy of a CMap that kept the name of the
+	// original: two resources whose /CMapName entries are equal).
+	Key string
 }
 
 func pick(c Chooser, n int) int {
@@ -195,7 +199,9 @@ func Write(cmaps []*CMap, c Chooser) []byte {
 			fmt.Fprintf(&b, "end%s%s", KindNames[blk.Kind], nl(c))
 		}
 		fmt.Fprintf(&b, "endcmap%s", nl(c))
-		if m.NoCMapName {
+		if m.Key != "" {
+			fmt.Fprintf(&b, "/%s currentdict /CMap defineresource pop%s", m.Key, nl(c))
+		} else if m.NoCMapName {
 			fmt.Fprintf(&b, "/%s currentdict /CMap defineresource pop%s", m.Name, nl(c))
 		} else {
 			fmt.Fprintf(&b, "CMapName currentdict /CMap defineresource pop%s", nl(c))
